@@ -241,7 +241,7 @@ func scenRaceStop(x *Ctx) {
 	if thr <= 0 {
 		thr = 5
 	}
-	for round := 0; round < 4; round++ {
+	for round := 0; round < 6; round++ {
 		l = x.C.WaitLeader(3 * time.Second)
 		if l == "" {
 			break
@@ -252,7 +252,7 @@ func scenRaceStop(x *Ctx) {
 		x.Writes(1, l, 2*thr+3, 500*time.Millisecond)
 		gate := simnetNewGate()
 		who := l
-		if round%2 == 1 {
+		if round%3 == 2 {
 			who = f // the isolated node campaigns: its vote requests are what is in flight
 		}
 		var heldIS atomic.Int32
